@@ -627,6 +627,12 @@ def _run_property(ctx, pkgs, tier):
         "not_run": r.get("not_run"), "packages_of_this_property": pkgs, "cache_key": r.get("key", "")[:32],
         "rule": "a signature / anomaly class that is not in known_races.json is a violation only if a re-run of the same configuration (up to %d) shows it again" % RERUNS,
     })
+    # a known race is a recorded finding of the property that owns the racing field (known_findings.json); the check of that property says so
+    for x in known:
+        fid = {"R-LASTACCESSED": "F-RACE-LASTACCESSED"}.get(x["id"])
+        if fid and ctx.finding_by_id(fid):
+            ctx.known_finding(fid, "data race reproduced on the real stack (race detector, %s report(s)): %s <-> %s — lastAccessed is written under the shard's read lock "
+                                   "by concurrent Unlocks of one lock name (signature %s of known_races.json)" % (x["reports"], x["signature"][0], x["signature"][1], x["id"]))
     for i, x in enumerate(mine, 1):
         p = ctx.replay_path("race_%d.json" % i)
         obj = dict(kind=KIND, what="data race", property=ctx.prop, signature=x["signature"], packages=x["packages"], access_frames=x["access_frames"],
